@@ -28,6 +28,9 @@ CHECKS = {
  "C10": dict(technique="TLA+ spec LLL (HNF and LLL-reducedness contracts with Gram determinants defined from first principles; design-level LLL step machine model-checked from every small basis: lattice preserved, potential decreases, termination, result reduced); recorded lll / lll_hnf calls over Z, Z[i], Z[w] validated by Trace_LLL",
              text="TLC runs the LLL step machine to completion from every 2x2/2x3 basis with small entries (invariants, potential decrease, termination, reducedness of the result), and validates every recorded result of the real lll_hnf and lll (any shape and rank for HNF, entries up to hundreds of digits, all transform-flag combinations) against the contracts using exact limb arithmetic.",
              note="Trusted: TLC, Matrices/Rings libraries. No step hooks: the internal det/lambda updates are checked only through the results. Termination by a 30 s deadline per call.", design="§3 C10"),
+ "C20": dict(technique="TLA+ spec Cli (decision table Outcome(cmd,-t,-c,-m,-r,input class) over tokenised -c values + grammar of table cells); TLC exhaustive on the whole option product; every product point run on the freshly built ykh binary, stdout lexed and compared with a direct library call; recorded invocations validated by Trace_Cli",
+             text="TLC checks the decision table on the complete option product (every point has exactly one outcome, error points never show a table, theorems of the table, round trip of the cell grammar); TLC then prints the product with the demanded outcome and the library call (ring, h, t, flags), the harness runs the freshly built binary at every point and at seeded random instances, lexes the printed table and Trace_Cli requires exit/stdout class to match and the printed non-zero cells to be exactly the groups KhHomology / into_bigraded / KhComplex::gen_grid return at the same (i,j).",
+             note="Trusted: TLC, the Rust lexer of table cells, process spawning. Only the unicode format and -t -c -m -r. ckh's generator table is compared exactly only where the simplified complex is determined by the parameters (fields, homogeneous h,t); elsewhere by ring, well-formedness and Euler characteristic.", design="§3 C20"),
 }
 PENDING = "not yet bound to the specification in this round (see DESIGN.md section 3 for the planned spec and binding)"
 m = {
